@@ -241,12 +241,15 @@ def sum_clear(n_car, n_ped):
     """TrackingMetricsScore over two labels: per-label CLEARs and the ground-truth-weighted totals."""
     thr = [real("thr_car", 1, 20), real("thr_ped", 1, 20)]
 
+    dist = {}
+
     def hist(label, n, tag, base):
         out = []
         for f in range(2):
             fr = []
             for t in range(n):
                 d = real(f"{tag}f{f}t{t}_dist", 0, 30)
+                dist[(label, f, t)] = d
                 fr.append(OR.DynamicObjectWithPerceptionResult(_obj(base + t, label, d, 10.0 * t),
                                                                _obj(base + 500 + t, label, 0.0, 10.0 * t)))
             out.append(fr)
@@ -258,6 +261,13 @@ def sum_clear(n_car, n_ped):
     mota, motp, sw = ts._sum_clear()
     cs = ts.clears
     parts = {"one_clear_per_label": len(cs) == 2 and cs[0].num_ground_truth == ngt[CAR] and cs[1].num_ground_truth == ngt[PED]}
+    # every label is judged against its own threshold: a track is a TP in the second frame iff it was one in the first
+    # (the same pairing continues) or is within the label's threshold now
+    for c, label, n, t_l in ((cs[0], CAR, n_car, thr[0]), (cs[1], PED, n_ped, thr[1])):
+        want = 0
+        for t in range(n):
+            want = want + L.If(L.Or(dist[(label, 0, t)] < t_l, dist[(label, 1, t)] < t_l), 1, 0)
+        parts[f"{label.value}_tp_under_its_own_threshold"] = L.And(L.close(c.tp, want, 1e-9), L.close(c.tp + c.fp, n, 1e-9))
     tot_gt = ngt[CAR] + ngt[PED]
     num = 0
     for c in cs:
